@@ -211,6 +211,12 @@ func (la *LeapArray) currentBucketOfTime(now uint64, bg BucketGenerator) (*Bucke
 			// current time has been next cycle of LeapArray and LeapArray dont't count in last cycle.
 			// reset BucketWrap
 			if la.updateLock.TryLock() {
+				if bucketStart <= atomic.LoadUint64(&old.BucketStart) {
+					// Another goroutine has refreshed the bucket since its start time was read above;
+					// resetting it again would wipe the counts recorded in between.
+					la.updateLock.Unlock()
+					continue
+				}
 				old = bg.ResetBucketTo(old, bucketStart)
 				la.updateLock.Unlock()
 				return old, nil
